@@ -2,6 +2,12 @@ package netty
 
 import (
 	"bytes"
+	"context"
+	"io"
+	"net"
+	"time"
+
+	"github.com/go-netty/go-netty/transport"
 
 	"github.com/go-netty/go-netty/internal/vrt"
 )
@@ -68,4 +74,61 @@ func ZZ_C14_Head(kind, sizeIdx, queue int) {
 	zzSame(tr.log, snapshot, "transmitted")
 	vrt.Assert(tr.unflushed == 0, "flushed")
 	vrt.Reach("c14-head-done")
+}
+
+// zzConn is an in-memory net.Conn recording what the peer receives (used under the real buffered transports).
+type zzConn struct {
+	received []byte
+	closed   bool
+}
+
+func (c *zzConn) Write(p []byte) (int, error)        { c.received = append(c.received, p...); return len(p), nil }
+func (c *zzConn) Read(p []byte) (int, error)         { return 0, io.EOF }
+func (c *zzConn) Close() error                       { c.closed = true; return nil }
+func (c *zzConn) LocalAddr() net.Addr                { return zzAddr{} }
+func (c *zzConn) RemoteAddr() net.Addr               { return zzAddr{} }
+func (c *zzConn) SetDeadline(time.Time) error        { return nil }
+func (c *zzConn) SetReadDeadline(time.Time) error    { return nil }
+func (c *zzConn) SetWriteDeadline(time.Time) error   { return nil }
+
+// ZZ_C14_Buffered: messages of different carriers and sizes around the write-buffer size go through the head handler of
+// a queued channel that sits on the REAL buffered transport wrappers (transport.NewTransport); the sender runs when the
+// harness says so (manual executor), so that several packets are batched. The peer must receive exactly the bytes of
+// the messages in order.
+func ZZ_C14_Buffered(rsize, wsize, q, pattern int) {
+	conn := &zzConn{}
+	tr := transport.NewTransport(conn, rsize, wsize)
+	pl := NewPipeline()
+	probe := &zzProbe{swallowEx: true}
+	pl.AddLast(probe)
+	ex := &zzManualExecutor{}
+	ch := newChannelWith(context.Background(), pl, tr, ex, 1, q, true).(*channel)
+	pl.(*pipeline).channel = ch
+	ws := wsize
+	if ws <= 0 {
+		ws = 4
+	}
+	sizes := []int{1, ws - 1, ws, 2*ws + 1}
+	var want []byte
+	for i, p := 0, pattern; i < 3; i, p = i+1, p/8 {
+		n := sizes[(p%8)%4]
+		content := vrt.Bytes(n)
+		want = append(want, content...)
+		var msg Message = content
+		switch (p % 8) / 4 {
+		case 1:
+			msg = bytes.NewBuffer(append([]byte(nil), content...))
+		}
+		if i == 2 {
+			msg = [][]byte{content[:n/2], content[n/2:]}
+		}
+		vrt.Assert(ch.Write(msg) == nil, "write-on-open-channel-returns-nil")
+		if q == 1 || (pattern/512)%2 == 1 && i == 0 {
+			ex.runAll()
+		}
+	}
+	ex.runAll()
+	vrt.Assert(len(probe.exceptions) == 0, "supported-type-no-exception")
+	zzSame(conn.received, want, "transmitted-through-buffered-transport")
+	vrt.Reach("c14-buffered-done")
 }
